@@ -28,8 +28,12 @@ def run(tier, seed, selftest=False, replay=None):
     mcs = []
     if replay:
         cs = read_json(os.path.join(replay, "case.json"))["case"]
-        lang, swbits, md, sd = cs["id"].split("/")
-        jobs = [(lang, dict(zip(("disUse", "disContra", "noBounds", "noParamFn"), [b == "1" for b in swbits])), int(md[2:]), [int(sd)])]
+        worker_case = "/worker/" in cs["id"]
+        if worker_case:
+            jobs = []
+        else:
+            lang, swbits, md, sd = cs["id"].split("/")
+            jobs = [(lang, dict(zip(("disUse", "disContra", "noBounds", "noParamFn"), [b == "1" for b in swbits])), int(md[2:]), [int(sd)])]
     else:
         # design level: the skeleton is depth-bounded and terminates when the two zero-cost link kinds are cut after MaxLinks uses;
         # with the links modelled faithfully TLC must find the non-terminating lasso (finding F17) - a sanity check of the model itself
@@ -55,8 +59,20 @@ def run(tier, seed, selftest=False, replay=None):
     def ex(i):
         lang, sw, md, seeds = jobs[i]
         return json.loads(run_driver("pipe_exec.py", [lang, json.dumps(sw), md, json.dumps(seeds), os.path.join(d, "trace%d.json" % i)], timeout=3400))
-    files = [f for fl in parallel(ex, range(len(jobs))) for f in fl]
-    T("executed %d jobs" % len(jobs))
+    # histories: one process plays a pool worker and calls the real gen_program for consecutive program ids (nothing reset by the harness)
+    if replay:
+        wjobs = [(cs["id"].split("/")[0], int(cs["id"].split("/")[2][2:]), int(cs["id"].split("#")[1]) + 5, int(cs["id"].split("/")[3].split("#")[0]))] if worker_case else []
+    elif tier == "quick":
+        wjobs = [("kotlin", 6, 70, seed + 1), ("java", 6, 70, seed + 2), ("scala", 2, 300, seed + 3)]
+    else:
+        wjobs = [(lang, md, n_, seed + 10 * li + md) for li, lang in enumerate(LANGS) for md, n_ in ((2, 400), (6, 120))]
+
+    def exw(i):
+        lang, md, n_, sd = wjobs[i]
+        return json.loads(run_driver("worker_exec.py", [lang, md, n_, sd, os.path.join(d, "worker%d.json" % i)], timeout=3400))
+    both = parallel(lambda t: (ex if t[0] == "p" else exw)(t[1]), [("p", i) for i in range(len(jobs))] + [("w", i) for i in range(len(wjobs))])
+    files = [f for fl in both for f in fl]
+    T("executed %d jobs and %d worker histories" % (len(jobs), len(wjobs)))
     merged, buf = [], []
     for f in files:
         buf += read_json(f)["programs"]
@@ -93,6 +109,7 @@ def run(tier, seed, selftest=False, replay=None):
     rc = verdict.finish()
     write_evidence(PID, tier, seed, "exploration", {
         "evaluations": nstages, "distinct_nontrivial": nprog,
+        "worker_histories": [{"language": w[0], "max_depth": w[1], "consecutive_programs": w[2]} for w in wjobs],
         "rule": "design: HGenerator (path model of the generator's call tree with the leaf rule, depth increments and the bottom cut) model-checked "
                 "for DepthBounded and Termination with the zero-cost links cut, and TLC required to find the lasso with them (F17); code: seeds x 4 "
                 "languages x max_depth in {2,4,6,8} x sampled switch settings, each program through generate / translate / erase / erase / "
